@@ -1,7 +1,9 @@
 import KyupyVerif.Model.SubstSem
 /-! C10, audit 2 finding 6: decidable hypotheses of the whole-run PROGRESS theorem `C10.resolve_run_isSome`.  Unlike `resolveGenOKB`
 they do NOT contain the success of `substitute` (`none ⇒ true`), and they do NOT contain the circuit-wide invariants `wfNoTrail` /
-`forksDenseB` of the intermediate circuits (those are carried from one substitution to the next by `C10.substitute_preserves_inv`). -/
+`forksDenseB` of the intermediate circuits (those are carried from one substitution to the next by `C10.substitute_preserves_inv`).
+`resolveInstB` follows from the static hypothesis `resolveStaticB` (Model/ResolveStatic.lean, original circuit only):
+`C10.resolveInstB_of_resolveStaticB`. -/
 namespace KV.Transform
 open KV
 
